@@ -248,7 +248,8 @@ func parseAndOr(getSnippet func() (*snippet, error), remainingSnippets func() in
 			} else {
 				conditions = append(conditions, condition)
 			}
-			expectingMore = true
+			// A group is a complete operand, just like a single condition.
+			expectingMore = false
 		case ")":
 			if len(conditions) == 1 {
 				return conditions[0], nil
